@@ -13,8 +13,9 @@ RECORDS = {}        # class name -> {field: type string}
 
 
 class LoopSpec(object):
-    def __init__(self, header, invariants, decreases=None, modifies=None, ghost=None, body_facts=(), types=None):
+    def __init__(self, header, invariants, decreases=None, modifies=None, ghost=None, body_facts=(), types=None, body_post=()):
         self.types = dict(types or {})
+        self.body_post = _named(body_post, 'step')
         self.body_facts = _named(body_facts, 'fact')
         self.header = header            # fingerprint: ast.unparse of iter/test
         self.invariants = _named(invariants, 'inv')
@@ -37,9 +38,9 @@ def _named(clauses, prefix):
 
 class Contract(object):
     def __init__(self, qualname, params, returns='None', requires=(), ensures=(),
-                 raises=None, modifies=(), loops=None, hints=(), props=(),
+                 raises=None, modifies=None, loops=None, hints=(), props=(),
                  sentinel=None, pure=False, trusted=False, reach=(), note='',
-                 gen=None, opts=None, ghost_returns=None):
+                 gen=None, opts=None, ghost_returns=None, globals=None, log=True):
         self.qualname = qualname
         mod, _, fn = qualname.partition(':')
         self.module = mod
@@ -50,7 +51,9 @@ class Contract(object):
         self.ensures = _named(ensures, 'post')
         # raises: {ExcClassName: when-clause or None}; '*' suffix = any subclass
         self.raises = dict(raises or {})
-        self.modifies = list(modifies)
+        self.modifies = None if modifies is None else list(modifies)   # None: frame not checked
+        self.globals = dict(globals or {})      # process-global cells the function reads/writes: 'sys.stdout': type
+        self.log = log
         self.loops = dict(loops or {})
         self.hints = list(hints)
         self.props = list(props)
